@@ -323,6 +323,104 @@ Theorem bdf_example : bdf_example_stmt.
 Proof. exact BdfSpec.bdf_example. Qed.
 Print Assumptions bdf_example.
 
+(* ricdwrap (orbital functions only, by the property text), and the two layouts the property allows to round: acesii - which
+   does round: the printed field is proved to be the number rounded half-to-even to 7 decimals of its double
+   (aces_exp_spec / aces_coef_spec / aces_rhe_half), each field is part of a line (acesii_fields), and it is a token of its own
+   exactly when it leaves a blank in its 14-character field (acesii_no_number_lost_partial; acesii_merged_fields: 6-31+G*-J
+   carbon prints two exponents without a separator) - and crystal, which in this version of the code does not round at all:
+   every digit is a token (crystal_no_number_lost), the ECP is stated as Z+200 and Z - nelec, and every element with Z >= 99
+   is left out silently for every input (crystal_high_z: the recorded known finding). *)
+From BSE Require Import Model.Ricdwrap Proofs.RicdwrapDefs Model.Acesii Proofs.AcesiiDefs Model.CrystalW Proofs.CrystalWDefs.
+From BSE Require Proofs.RicdwrapSpec Proofs.AcesiiSpec Proofs.CrystalWSpec.
+
+Theorem ricdwrap_write_total : ricdwrap_write_total_stmt.
+Proof. exact RicdwrapSpec.ricdwrap_write_total. Qed.
+Print Assumptions ricdwrap_write_total.
+
+Theorem ricdwrap_no_number_lost : ricdwrap_no_number_lost_stmt.
+Proof. exact RicdwrapSpec.ricdwrap_no_number_lost. Qed.
+Print Assumptions ricdwrap_no_number_lost.
+
+Theorem ricdwrap_ecp_ignored : ricdwrap_ecp_ignored_stmt.
+Proof. exact RicdwrapSpec.ricdwrap_ecp_ignored. Qed.
+Print Assumptions ricdwrap_ecp_ignored.
+
+Theorem ricdwrap_example : ricdwrap_example_stmt.
+Proof. exact RicdwrapSpec.ricdwrap_example. Qed.
+Print Assumptions ricdwrap_example.
+
+Theorem acesii_write_total : acesii_write_total_stmt.
+Proof. exact AcesiiSpec.acesii_write_total. Qed.
+Print Assumptions acesii_write_total.
+
+Theorem acesii_fields : acesii_fields_stmt.
+Proof. exact AcesiiSpec.acesii_fields. Qed.
+Print Assumptions acesii_fields.
+
+Theorem acesii_no_number_lost_when_fields_fit : acesii_no_number_lost_partial_stmt.
+Proof. exact AcesiiSpec.acesii_no_number_lost_partial. Qed.
+Print Assumptions acesii_no_number_lost_when_fields_fit.
+
+Theorem acesii_ecp_no_number_lost : acesii_ecp_no_number_lost_stmt.
+Proof. exact AcesiiSpec.acesii_ecp_no_number_lost. Qed.
+Print Assumptions acesii_ecp_no_number_lost.
+
+Theorem acesii_coefficient_rounding : aces_coef_spec_stmt.
+Proof. exact AcesiiSpec.aces_coef_spec. Qed.
+Print Assumptions acesii_coefficient_rounding.
+
+Theorem acesii_exponent_rounding : aces_exp_spec_stmt.
+Proof. exact AcesiiSpec.aces_exp_spec. Qed.
+Print Assumptions acesii_exponent_rounding.
+
+Theorem acesii_rounding_is_nearest : aces_rhe_half_stmt.
+Proof. exact AcesiiSpec.aces_rhe_half. Qed.
+Print Assumptions acesii_rounding_is_nearest.
+
+Theorem acesii_merged_fields : acesii_merged_fields_stmt.
+Proof. exact AcesiiSpec.acesii_merged_fields. Qed.
+Print Assumptions acesii_merged_fields.
+
+Theorem acesii_small_coefficient_printed_as_zero : acesii_small_coef_stmt.
+Proof. exact AcesiiSpec.acesii_small_coef. Qed.
+Print Assumptions acesii_small_coefficient_printed_as_zero.
+
+Theorem acesii_trim_integer : acesii_trim_integer_stmt.
+Proof. exact AcesiiSpec.acesii_trim_integer. Qed.
+Print Assumptions acesii_trim_integer.
+
+Theorem acesii_example : acesii_example_stmt.
+Proof. exact AcesiiSpec.acesii_example. Qed.
+Print Assumptions acesii_example.
+
+Theorem crystal_write_total : crystal_write_total_stmt.
+Proof. exact CrystalWSpec.crystal_write_total. Qed.
+Print Assumptions crystal_write_total.
+
+Theorem crystal_no_number_lost : crystal_no_number_lost_stmt.
+Proof. exact CrystalWSpec.crystal_no_number_lost. Qed.
+Print Assumptions crystal_no_number_lost.
+
+Theorem crystal_ecp_no_number_lost : crystal_ecp_no_number_lost_stmt.
+Proof. exact CrystalWSpec.crystal_ecp_no_number_lost. Qed.
+Print Assumptions crystal_ecp_no_number_lost.
+
+Theorem crystal_high_z_left_out : crystal_high_z_stmt.
+Proof. exact CrystalWSpec.crystal_high_z. Qed.
+Print Assumptions crystal_high_z_left_out.
+
+Theorem crystal_ecp_only_raises : crystal_ecp_only_stmt.
+Proof. exact CrystalWSpec.crystal_ecp_only. Qed.
+Print Assumptions crystal_ecp_only_raises.
+
+Theorem crystal_h_projector_raises : crystal_h_projector_stmt.
+Proof. exact CrystalWSpec.crystal_h_projector. Qed.
+Print Assumptions crystal_h_projector_raises.
+
+Theorem crystal_example : crystal_example_stmt.
+Proof. exact CrystalWSpec.crystal_example. Qed.
+Print Assumptions crystal_example.
+
 (* the Gaussian94 ECP blocks: every gaussian exponent / coefficient (with the D marker the writer prints), every r exponent
    and the electron count is a token of the text *)
 From BSE Require Import Model.G94Ecp Proofs.G94EcpDefs.
